@@ -128,7 +128,8 @@ def harness_for(cfg):
                 else:
                     child, sub = build(it["child"])
                     base = E.int(f"b{n}", 0, top) if it["mode"] == "sym" else None
-                    name = (f"w{n}",) if it["named"] else None
+                    # multi-part names (string and integer parts) every other window
+                    name = ((f"w{n}",) if n % 2 else ("bank", n, "io")) if it["named"] else None
                     try:
                         ws, we, ratio = mm.add_window(child, name=name, addr=base, sparse=it["sparse"])
                     except ValueError:
